@@ -59,13 +59,6 @@ class BaseMatcher(ABC):
 
 @dataclass(frozen=True, slots=True)
 class AnyMatcher(BaseMatcher):
-    _instance: ClassVar[AnyMatcher | None] = None
-
-    def __new__(cls, *args: Any, **kwargs: Any) -> AnyMatcher:
-        if cls._instance is None:
-            cls._instance = object.__new__(cls)
-        return cls._instance
-
     def _match(self, value: Any, ctx: _Vars) -> _MatchRes:
         return (True, {})
 
